@@ -26,6 +26,17 @@ SPACES = {
         dict(kvs=[[0, 0, 0, 1, 3, 3, 3], [0, 0, 2, 3, 3]], ps=[2, 1], A=[[0, 2], [-1, 1]], t=[-1, 0])],   # det < 0
     3: [dict(kvs=[[0, 0, 1, 2, 2], [0, 0, 0, 2, 2, 2], [0, 0, 1, 1]], ps=[1, 2, 1], A=[[1, 0, 1], [0, 2, 0], [1, 0, -1]], t=[0, 1, 2])],
 }
+# Petrov-Galerkin pairs on a common mesh: trial functions u in space 0, test functions v in space 1 (rows)
+SPACES2 = [
+    dict(kvs=[[0, 0, 1, 3, 3], [0, 0, 2, 3, 3]], ps=[1, 1],
+         kvs1=[[0, 0, 0, 0, 1, 3, 3, 3, 3], [0, 0, 0, 2, 3, 3, 3]], ps1=[3, 2], A=[[2, 1], [0, 3]], t=[1, -2]),
+    dict(kvs=[[0, 0, 0, 0, 1, 3, 3, 3, 3], [0, 0, 0, 2, 3, 3, 3]], ps=[3, 2],
+         kvs1=[[0, 0, 1, 3, 3], [0, 0, 2, 3, 3]], ps1=[1, 1], A=[[1, -1], [2, 1]], t=[0, 1]),
+    dict(kvs=[[0, 0, 1, 2, 2], [0, 0, 0, 1, 1, 2, 2, 2]], ps=[1, 2],
+         kvs1=[[0, 0, 0, 1, 1, 2, 2, 2], [0, 0, 0, 0, 1, 2, 2, 2, 2]], ps1=[2, 3], A=[[0, 2], [-1, 1]], t=[-1, 0]),
+]
+FIXED2 = [['u', 'v', '*'], ['gu', 'gv', 'inner'], ['ux', 'v', '*'], ['f', 'val', 'u', '*', 'v', '*'], ['uxp', 'vyp', '*']]
+
 FIELDS = {
     2: dict(f=[[1, 2], [1, 3], [-1, 4]], f2=[[2, 1], [-1, 2], [1, 5]], h=[[1, 1], [1, 2], [-2, 3]],
             g=[[[1, 1], [1, 2], [0, 1]], [[-1, 2], [0, 1], [2, 3]]], A=[[[2, 1], [1, 2]], [[-1, 3], [3, 2]]], c=[3, 2]),
@@ -132,9 +143,26 @@ def run(ctx):
         d = c['dim']
         sp = SPACES[d][i % len(SPACES[d])]
         shape = [len(k) - p - 1 for k, p in zip(sp['kvs'], sp['ps'])]
-        cases.append(dict(id=i, dim=d, kvs=sp['kvs'], ps=sp['ps'], A=[[[x, 1] for x in row] for row in sp['A']],
+        cases.append(dict(id=i, dim=d, kvs=sp['kvs'], ps=sp['ps'], kvs1=sp['kvs'], ps1=sp['ps'], twospace=False,
+                          A=[[[x, 1] for x in row] for row in sp['A']],
                           t=[[x, 1] for x in sp['t']], tokens=c['tokens'], bilinear=c['bilinear'],
                           fields=FIELDS[d], pairs=pairs_for(shape, sp['ps'], c['bilinear'], rng), shape=shape))
+    # two-space (Petrov-Galerkin) forms: u in space 0 (columns), v in space 1 (rows); the number of Gauss nodes is the
+    # maximal degree over BOTH spaces + 1, which integrates these polynomial integrands exactly
+    for j, t in enumerate(FIXED2 if ctx.thorough else FIXED2[:3]):
+        for k, sp in enumerate(SPACES2 if ctx.thorough else SPACES2[:2]):
+            if not ctx.thorough and (j + k) % 2 == 1 and j > 0:
+                continue
+            shape0 = [len(kk) - p - 1 for kk, p in zip(sp['kvs'], sp['ps'])]
+            shape1 = [len(kk) - p - 1 for kk, p in zip(sp['kvs1'], sp['ps1'])]
+            n0, n1 = int(np.prod(shape0)), int(np.prod(shape1))
+            prs = {(0, 0), (n1 - 1, n0 - 1), (n1 // 2, n0 // 2), (1, 0), (0, 1), (n1 // 2, max(0, n0 // 2 - 1))}
+            while len(prs) < 11:
+                prs.add((rng.randrange(n1), rng.randrange(n0)))
+            cases.append(dict(id=500 + 10 * j + k, dim=2, kvs=sp['kvs'], ps=sp['ps'], kvs1=sp['kvs1'], ps1=sp['ps1'],
+                              twospace=True, A=[[[x, 1] for x in row] for row in sp['A']], t=[[x, 1] for x in sp['t']],
+                              tokens=t, bilinear=True, fields=FIELDS[2], pairs=[list(p) for p in sorted(prs)],
+                              shape=[n1, n0]))
     smoke = [dict(id=1000 + i, dim=2, kvs=SPACES[2][0]['kvs'], ps=SPACES[2][0]['ps'],
                   A=[[[x, 1] for x in row] for row in SPACES[2][0]['A']], t=[[x, 1] for x in SPACES[2][0]['t']],
                   expr=e, fields=FIELDS[2]) for i, e in enumerate(NONPOLY[:(8 if ctx.thorough else 3)])]
@@ -168,6 +196,8 @@ def run(ctx):
     for c in cases:
         res = results[c['id']]
         lab = vf_gen.render(c['tokens']) + ' [dim %d, degrees %s]' % (c['dim'], c['ps'])
+        if c['twospace']:
+            lab += ' [two spaces: test degrees %s %s trial degrees]' % (c['ps1'], '>' if max(c['ps1']) > max(c['ps']) else '<=')
         nontriv = c['bilinear'] and len(c['tokens']) > 3
         if not res.get('ok'):
             kind = 'interpreter-crashed' if res.get('crashed') else 'build-load-assemble-failed'
